@@ -222,7 +222,10 @@ def slice_faces_plane(
     num = (plane_origin - o).dot(plane_normal)  # compute num/denom
     denom = np.dot(d, plane_normal)
     denom[denom == 0.0] = 1e-12  # prevent division by zero
-    dist = np.divide(num, denom)
+    # Clamp to the segment, so that a vertex which is within the merge tolerance
+    # of the plane, but not exactly on it, can't push the intersection point
+    # past the end of its edge.
+    dist = np.clip(np.divide(num, denom), 0.0, 1.0)
     # intersection points for each segment
     int_points = np.einsum("ij,ijk->ijk", dist, d) + o
 
